@@ -124,16 +124,11 @@ def sh(cmd, timeout, cwd=None, env=None, input=None):
 
 
 def ensure_built():
-    """Incremental full build of the Coq development (no-op when up to date)."""
-    lock = open(os.path.join(VERIF, ".build.lock"), "w")
-    fcntl.flock(lock, fcntl.LOCK_EX)
-    try:
-        rc, out = sh([os.path.join(VERIF, "mkproject.sh")], timeout=3400)
-        if rc != 0:
-            print(out[-4000:])
-            raise SystemExit(2)
-    finally:
-        fcntl.flock(lock, fcntl.LOCK_UN)
+    """Incremental full build of the Coq development (no-op when up to date; mkproject.sh takes a lock)."""
+    rc, out = sh([os.path.join(VERIF, "mkproject.sh")], timeout=3400)
+    if rc != 0:
+        print(out[-4000:])
+        raise SystemExit(2)
 
 
 def check_obligations(props_file: str):
@@ -258,10 +253,18 @@ def coq_eval(requires: list[str], expr: str, timeout=300) -> str:
 
 # ------------------------------------------------------------------------------------------
 def load_known_findings():
+    """known_findings.json (committed, never written at run time); during development a property's
+    entries may sit in known_findings.d/<pid>.json until they are merged into the main file."""
+    out = []
     p = os.path.join(VERIF, "known_findings.json")
-    if not os.path.exists(p):
-        return []
-    return json.load(open(p))
+    if os.path.exists(p):
+        out += json.load(open(p))
+    d = os.path.join(VERIF, "known_findings.d")
+    if os.path.isdir(d):
+        for fn in sorted(os.listdir(d)):
+            if fn.endswith(".json"):
+                out += json.load(open(os.path.join(d, fn)))
+    return out
 
 
 def corpus_cases(pid: str, suite: str) -> list:
